@@ -11,6 +11,23 @@ set_option linter.unusedSimpArgs false
 
 variable {α : Type} [DecidableEq α]
 
+/-- Over a one-symbol alphabet `{s}` every position of a word carries `s`. -/
+theorem getElem?_single {syms : List α} {s : α} (hlen : syms.length = 1) (hs : s ∈ syms)
+    {w : List α} (hw : Over syms w) (i : Nat) : w[i]? = some s ↔ i < w.length := by
+  obtain ⟨x, hx⟩ := List.length_eq_one_iff.mp hlen
+  rw [hx] at hs
+  simp only [List.mem_singleton] at hs
+  constructor
+  · intro h
+    apply Classical.byContradiction; intro h2
+    rw [List.getElem?_eq_none (by omega)] at h; cases h
+  · intro h
+    rw [List.getElem?_eq_getElem h]
+    have := hw _ (List.getElem_mem h)
+    rw [hx] at this
+    simp only [List.mem_singleton] at this
+    rw [this, hs]
+
 /-! ### nth_from_start (alphabets with ≠ 1 symbols) -/
 
 section nthStart
